@@ -19,6 +19,7 @@ apertures of several classes are driven in one fresh subprocess per scenario
 """
 import itertools
 import math
+import types
 import warnings
 
 import numpy as np
@@ -44,6 +45,23 @@ def exc_code(e):
     return 9
 
 
+_DEPTH = [0]
+
+
+def _depth_ok():
+    return _DEPTH[0] < 4
+
+
+def same_dict(a, b):
+    if sorted(a) != sorted(b):
+        return False
+    _DEPTH[0] += 1
+    try:
+        return all(same(a[k], b[k]) for k in a)
+    finally:
+        _DEPTH[0] -= 1
+
+
 def same(a, b):
     """Exact (bitwise up to NaN payload / sign of zero) equality of two results."""
     import astropy.units as u
@@ -56,6 +74,8 @@ def same(a, b):
         if a.colnames != b.colnames or len(a) != len(b):
             return False
         return all(same(a[c], b[c]) for c in a.colnames)
+    if isinstance(a, u.UnitBase) or isinstance(b, u.UnitBase):
+        return isinstance(a, u.UnitBase) and isinstance(b, u.UnitBase) and a == b
     if isinstance(a, u.Quantity) or isinstance(b, u.Quantity):
         if not (isinstance(a, u.Quantity) and isinstance(b, u.Quantity)):
             return False
@@ -75,6 +95,17 @@ def same(a, b):
         return type(b).__name__ == 'ApertureMask' and same(a.bbox, b.bbox) and same(a.data, b.data)
     if type(a).__name__ == 'slice':
         return a == b
+    if isinstance(a, (str, bytes, bool, int, float, complex)) and isinstance(b, (str, bytes, bool, int, float, complex)):
+        return bool((a == b) or (a != a and b != b))
+    if hasattr(a, 'ndim') or hasattr(b, 'ndim') or isinstance(a, np.generic) or isinstance(b, np.generic):
+        pass
+    elif hasattr(a, '__dict__') and not isinstance(a, (type, types.FunctionType, types.MethodType, types.ModuleType)):
+        # e.g. aperture objects, stored PSFPhotometry copies: same class, same attributes (bounded depth)
+        if type(a) is not type(b):
+            return False
+        if a is b or not _depth_ok():
+            return True
+        return same_dict(vars(a), vars(b))
     aa, bb = np.asarray(a), np.asarray(b)
     if aa.dtype == object or bb.dtype == object:
         if aa.shape != bb.shape:
@@ -85,6 +116,24 @@ def same(a, b):
     if aa.dtype.kind in 'fc':
         return bool(np.array_equal(aa, bb, equal_nan=True))
     return bool(np.array_equal(aa, bb))
+
+
+def public_reads(obj, exclude=()):
+    """The READ alphabet derived from the object: every public, non-callable attribute (properties,
+    lazyproperties, deprecated accessors, plain instance attributes), plot-free."""
+    out = []
+    for n in sorted(set(dir(obj))):
+        if n.startswith('_') or n.startswith('plot') or n in exclude:
+            continue
+        try:
+            with Quiet():
+                v = getattr(obj, n)
+        except Exception:  # noqa   (still a read: raising is compared with the fresh object)
+            out.append(n)
+            continue
+        if not callable(v):
+            out.append(n)
+    return out
 
 
 def zf(x):
@@ -143,7 +192,24 @@ class Quiet:
 # (a) Background2D
 # --------------------------------------------------------------------------
 BREADS = ['background_mesh', 'background_rms_mesh', 'background_median', 'background_rms_median',
-          'background', 'background_rms', 'npixels_mesh', 'npixels_map']
+          'background', 'background_rms', 'npixels_mesh', 'npixels_map',
+          # deprecated accessors (DeprecationWarning recorded, not raised)
+          'background_mesh_masked', 'background_rms_mesh_masked', 'mesh_nmasked']
+NB_MODEL = 8
+# effect of the further reads on the modelled state: *_masked read the corresponding mesh
+# (cache effect of RMesh / RRmsMesh), mesh_nmasked reads only _ngood (no effect, like npixels_mesh)
+B_COQ = {8: 0, 9: 1, 10: 6}
+
+
+def bkg_alphabet(cfg):
+    """BREADS extended (once) by every other public non-callable attribute of a Background2D object"""
+    if len(BREADS) == 11:
+        with Quiet():
+            o = bkg_make(cfg)
+        BREADS.extend(public_reads(o, exclude=BREADS))
+    return BREADS
+
+
 BLAZY = ['background_mesh', 'background_rms_mesh', 'background_median', 'background_rms_median']
 
 
@@ -181,7 +247,7 @@ def bkg_configs(rng, tier):
     for thrk, fsize, interp in itertools.product(['none', 'low', 'mid', 'high'], [(1, 1), (3, 3), (3, 5)],
                                                  ['zoom', 'idw']):
         cfg = dict(seed=rng.randrange(1000), shape=rng.choice([(24, 28), (25, 27), (30, 28)]),
-                   box=rng.choice([(6, 7), (5, 5), (6, 6)]), nanbox=rng.random() < 0.5, star=True,
+                   box=rng.choice([(6, 7), (5, 5), (6, 6)]), nanbox=rng.random() < 0.7, star=True,
                    unit=rng.random() < 0.25, coverage=rng.random() < 0.3, fsize=fsize, interp=interp,
                    edge=rng.choice(['pad', 'crop']), thr=None, thrk=thrk)
         if thrk != 'none':
@@ -215,8 +281,9 @@ def bkg_run(ctx, cfg, hist, fresh_cache):
         eqf = exc == 0 and same(v, fresh(attr))
         if exc == 0 and not eqf:
             bad.append((k, attr, 'differs from a fresh object'))
-        obs.append((r, exc, eqf, obj._bkg_stats is None, obj._bkgrms_stats is None,
-                    [a in obj.__dict__ for a in BLAZY]))
+        if r < NB_MODEL or r in B_COQ:       # the other public attributes touch none of the modelled state
+            obs.append((B_COQ.get(r, r), exc, eqf, obj._bkg_stats is None, obj._bkgrms_stats is None,
+                        [a in obj.__dict__ for a in BLAZY]))
     return obs, bad
 
 
@@ -231,17 +298,24 @@ def section_bkg(ctx, cases, meta):
     rng = ctx.rng
     cfgs = bkg_configs(rng, ctx.tier)
     nh = 8 if ctx.tier == 'quick' else 12
+    nall = len(bkg_alphabet(cfgs[0]))
+    ctx.stat('bkg', 'read alphabet (public attributes)', nall)
     for ci, cfg in enumerate(cfgs):
         flags = bkg_flags(cfg)
         cache = {}
         hists = []
         for _ in range(nh):
             n = rng.randint(1, 8)
-            hists.append([rng.randrange(8) if rng.random() < 0.8 else rng.choice([0, 1]) for _ in range(n)])
+            hists.append([rng.randrange(11) if rng.random() < 0.75 else
+                          (rng.choice([0, 1]) if rng.random() < 0.5 else rng.randrange(11, nall)) for _ in range(n)])
         hists.append([1, 0, 4, 5])          # rms mesh first (the order no unit test uses)
+        hists.append([8, 0, 4, 9, 1, 5, 2, 3])      # deprecated masked accessors before everything else
+        hists.append([10, 6, 7, 10, 8, 2])
         if ctx.tier == 'thorough':
             hists += [list(p) for p in itertools.permutations(range(6))]
-            ctx.stat('bkg', 'permutation_histories', 720)
+            hists += [list(p) for p in itertools.permutations([8, 0, 4, 2, 10])]
+            hists += [list(p) for p in itertools.permutations([9, 1, 5, 3, 8])]
+            ctx.stat('bkg', 'permutation_histories', 960)
         for h in hists:
             obs, bad = bkg_run(ctx, cfg, h, cache)
             desc = {'machine': 'Background2D', 'config': {k: cfg[k] for k in cfg}, 'history': [BREADS[r] for r in h]}
@@ -259,6 +333,7 @@ def section_bkg(ctx, cases, meta):
 
 def replay_bkg(r):
     cfg = r['config']
+    bkg_alphabet(cfg)
     h = [BREADS.index(a) for a in r['history']]
     obs, bad = bkg_run(None, cfg, h, {})
     for (k, attr, what) in bad:
@@ -277,6 +352,22 @@ PKEYS = ['profile', 'profile_error', 'data_profile']
 PMUT = (4, 5, 6)
 P_EE_R = np.array([0.25, 0.75, 1.5, 2.25, 3.0, 10.0])
 P_EE_V = np.array([0.1, 0.5, 0.9, 5.0, 50.0, 400.0])
+
+
+PEXTRA = {}        # class name -> the other public non-callable attributes (derived from the object)
+
+
+def prof_alphabet(cfg):
+    if cfg['cls'] not in PEXTRA:
+        with Quiet():
+            o = prof_make(cfg)
+        known = {'profile', 'profile_error', 'data_profile', 'normalization_value', 'area', 'radius', 'data_radius'}
+        PEXTRA[cfg['cls']] = [n for n in public_reads(o, exclude=known) if not n.startswith('gaussian')]
+    return PEXTRA[cfg['cls']]
+
+
+def pop_name(cfg, op):
+    return POPS[op] if op < len(POPS) else PEXTRA[cfg['cls']][op - len(POPS)]
 
 
 def is_pread(op):
@@ -322,6 +413,8 @@ def prof_apply(obj, op):
     """returns (exc, value) of one operation"""
     try:
         with Quiet():
+            if op >= len(POPS):
+                return 0, getattr(obj, PEXTRA[type(obj).__name__][op - len(POPS)])
             if op <= 3 or op >= 9:
                 return 0, getattr(obj, POPS[op])
             if op == 7:
@@ -398,15 +491,15 @@ def prof_run(cfg, hist, cache):
         if is_pread(op) and exc == 0 and op <= 3:
             want = prof_expected_kind(cfg, op, normalized, cache)
             if want is not None and kind_of(v) != want:
-                bad.append((k, POPS[op], f'UNIT: is returned as {kind_of(v)} but must be {want} '
+                bad.append((k, pop_name(cfg, op), f'UNIT: is returned as {kind_of(v)} but must be {want} '
                                          f'({"normalised" if normalized else "un-normalised"} state, inputs '
                                          f'{"with" if cfg["unit"] else "without"} units)'))
         if is_pread(op):
             fexc, fv = prof_fresh(cfg, muts, op, cache)
             if exc != fexc:
-                bad.append((k, POPS[op], f'raises (code {exc}) where a fresh object gives code {fexc}'))
+                bad.append((k, pop_name(cfg, op), f'raises (code {exc}) where a fresh object gives code {fexc}'))
             elif exc == 0 and not same(v, fv):
-                bad.append((k, POPS[op], 'differs from a fresh object given the same normalize/unnormalize calls'))
+                bad.append((k, pop_name(cfg, op), 'differs from a fresh object given the same normalize/unnormalize calls'))
         elif exc != 0:
             bad.append((k, POPS[op], f'raises (code {exc})'))
         arr = farr(v) if (op <= 3 and exc == 0) else []
@@ -448,13 +541,15 @@ def section_prof(ctx, cases, meta):
     nh = 12 if ctx.tier == 'quick' else 30
     for cfg in cfgs:
         cache = {}
+        nextra = len(prof_alphabet(cfg))
         _, pr = prof_fresh(cfg, [], 0, cache)
         _, er = prof_fresh(cfg, [], 1, cache)
         dexc, dr = prof_fresh(cfg, [], 2, cache)
         hists = []
         for _ in range(nh):
             n = rng.randint(1, 8)
-            hists.append([rng.choice([0, 1, 2, 3, 4, 4, 5, 6, 6, 7, 8, 9, 10, 11]) for _ in range(n)])
+            hists.append([rng.choice([0, 1, 2, 3, 4, 4, 5, 6, 6, 7, 8, 9, 10, 11, 12 + rng.randrange(nextra)])
+                          for _ in range(n)])
         hists += [[4, 2, 6, 2], [2, 4, 2, 6, 2], [5, 0, 1, 2, 3], [4, 5, 6, 0, 2], [7, 4, 7, 8, 6, 7, 8],
                   [4, 0, 1, 3, 6, 0, 1, 2]]
         if ctx.tier == 'thorough':
@@ -466,13 +561,13 @@ def section_prof(ctx, cases, meta):
             ctx.stat('prof', 'permutation_histories', 240)
         for h in hists:
             obs, bad = prof_run(cfg, h, cache)
-            desc = {'machine': 'profile', 'config': cfg, 'history': [POPS[o] for o in h]}
+            desc = {'machine': 'profile', 'config': cfg, 'history': [pop_name(cfg, o) for o in h]}
             ctx.count_case(desc, any(o in PMUT for o in h))
             ctx.stat('prof', f"{cfg['cls']},{cfg['kind']}")
             for (k, name, what) in bad:
                 report(ctx, f"{cfg['cls']}.{name}:" + ('unit-or-type-after-history' if what.startswith('UNIT')
                                                        else 'order-dependent'),
-                              f"{cfg['cls']}.{name} {what}; history {[POPS[o] for o in h[:k + 1]]}",
+                              f"{cfg['cls']}.{name} {what}; history {[pop_name(cfg, o) for o in h[:k + 1]]}",
                               dict(desc, step=k, cmd='bin/check C09 --replay <this file>'))
             drc = 'None' if dexc != 0 else coq(Some(farr(dr)))
             cases.append(f'CProf {coq(farr(pr))} {coq(farr(er))} {drc} {coq(obs)}')
@@ -481,7 +576,8 @@ def section_prof(ctx, cases, meta):
 
 
 def replay_prof(r):
-    h = [POPS.index(a) for a in r['history']]
+    ex = prof_alphabet(r['config'])
+    h = [POPS.index(a) if a in POPS else len(POPS) + ex.index(a) for a in r['history']]
     obs, bad = prof_run(r['config'], h, {})
     for (k, name, what) in bad:
         print(f'step {k}: {name} {what}')
@@ -569,6 +665,15 @@ def ap_run(clsname, init, ops):
         obs.append((0, i, nid, True, (0, True, keys0)))
         nid += 1
     for k, op in enumerate(ops):
+        if op[0] == 'get':          # any other public attribute (parameters ...): no effect on the cache
+            with Quiet():
+                pub = public_reads(obj, exclude=ALAZY)
+                nm = pub[op[1] % len(pub)]
+                v = getattr(obj, nm)
+                fr = getattr(cls(**{n: ap_decode(x) for n, x in cur.items()}), nm)
+            if not same(v, fr):
+                bad.append((k, nm, 'differs from a fresh aperture with the current parameters'))
+            continue
         if op[0] == 'set':
             _, i, vd, valid = op
             exc = 0
@@ -619,6 +724,8 @@ def ap_history(rng, clsname):
             ops.append(('set', i, vd, valid))
             if valid:
                 cur[names[i]] = vd
+        elif rng.random() < 0.12:
+            ops.append(('get', rng.randrange(8)))
         else:
             ops.append(('read', rng.choice([0, 1, 2, 3, 4, 5, 5, 6, 7, 7, 8, 9, 10])))
     return init, ops
@@ -786,9 +893,29 @@ def is_img(op):
     return isinstance(op[0], str)
 
 
+PSF_ATTRS = {}
+
+
+def psf_alphabet(cfg):
+    """every public non-callable attribute of the object (results, fit_info, init_params, configuration ...;
+    the deprecated fit_results alias included)"""
+    key = 'iter' if cfg['iterative'] else 'psf'
+    if key not in PSF_ATTRS:
+        with Quiet():
+            PSF_ATTRS[key] = public_reads(psf_make(cfg))
+    return PSF_ATTRS[key]
+
+
 def psf_read(obj, op, last_d):
-    """READ operations of the history alphabet: ('img', 'model' | 'residual', psf_shape index, include_localbkg)"""
+    """READ operations of the history alphabet: ('img', 'model' | 'residual', psf_shape index, include_localbkg)
+    and ('img', 'attr', name, 0): a public attribute"""
     _, kind, si, incl = op
+    if kind == 'attr':
+        try:
+            with Quiet():
+                return 0, getattr(obj, si)
+        except Exception as e:  # noqa
+            return exc_code(e), None
     try:
         with Quiet():
             if kind == 'model':
@@ -818,7 +945,8 @@ def psf_run(cfg, hist, cache):
                     psf_call(f, *c)
                 cache[key] = psf_read(f, op, last_d)
             fexc, fv = cache[key]
-            name = f'make_{op[1]}_image(psf_shape={PSF_SHAPES[op[2]]}, include_localbkg={bool(op[3])})'
+            name = (f'attribute {op[2]}' if op[1] == 'attr' else
+                    f'make_{op[1]}_image(psf_shape={PSF_SHAPES[op[2]]}, include_localbkg={bool(op[3])})')
             if exc != fexc:
                 bad.append((k, f'READ: {name} raises (code {exc}) where a fresh object after the same calls gives '
                                f'code {fexc}'))
@@ -874,7 +1002,11 @@ def section_psf(ctx, cases, meta):
         hists = [[(0, 2, 0), (0, 1, 0), (0, 0, 0)] if cfg['finder'] else [(0, 2, 0), (0, 1, 0), (0, 1, 1)]]
         hists.append([(0, 1, 8), (0, 1, 0), (1, 1, 9), (1, 1, 1)])      # column sets differing from call to call
 
+        attrs = psf_alphabet(cfg)
+
         def img_read():
+            if rng.random() < 0.35:
+                return ('img', 'attr', rng.choice(attrs), 0)
             return ('img', rng.choice(['model', 'model', 'residual']), rng.randrange(3), rng.random() < 0.5)
         # make_model_image / make_residual_image as READS: with and without the local background, both orders,
         # after calls with non-zero local backgrounds
@@ -1008,45 +1140,116 @@ def galaxy():
     return _GAL['g']
 
 
-def ell_make(g0):
+GEO_FIELDS = ['sma', 'x0', 'y0', 'eps', 'pa', 'astep']
+ELL_SMA0 = [None, 6.0, 10.0]
+ISO_SMA = [7.0, 11.0]
+ISO_KEYS = ('sma', 'intens', 'eps', 'pa', 'x0', 'y0', 'stop_code', 'niter', 'valid')
+
+
+def ell_make(g0, persisted=None):
+    """persisted: (linear_growth, fix) left on the geometry by earlier calls (the known finding), applied to a
+    fresh object to decide whether a difference is explained by it"""
     from photutils.isophote import Ellipse, EllipseGeometry
     geo = EllipseGeometry(32.0, 31.0, 8.0, 0.25, 0.1, linear_growth=g0['lin'])
     if any(g0['fix']):
         geo.fix = np.array(g0['fix'])
+    if persisted is not None:
+        geo.linear_growth = persisted[0]
+        geo.fix = np.array(persisted[1])
     return Ellipse(galaxy(), geo), geo
 
 
+def geo_snapshot(geo):
+    return {f: float(getattr(geo, f)) for f in GEO_FIELDS}
+
+
+def ell_norm(a):
+    """calls: ('image', linear 0/1/2, fix_center, fix_pa, fix_eps, sma0 index) or ('iso', sma index)"""
+    a = tuple(a)
+    if a[0] == 'iso':
+        return a
+    if a[0] != 'image':                    # old replays: (linear, fc, fp, fe)
+        a = ('image',) + a
+    return a + (0,) * (6 - len(a))
+
+
+def iso_key(iso):
+    return {k: np.asarray(getattr(iso, k), float) for k in ISO_KEYS}
+
+
 def ell_call(e, a):
-    lin, fc, fp, fe = a
+    """returns (comparable result, the live result object)"""
     with Quiet():
-        il = e.fit_image(maxsma=14.0, minsma=5.0, step=0.35 if lin != 2 else 2.0,
-                         linear={0: None, 1: False, 2: True}[lin], fix_center=fc, fix_pa=fp, fix_eps=fe)
-        t = il.to_table()
-    return t
+        if a[0] == 'iso':
+            iso = e.fit_isophote(ISO_SMA[a[1]])
+            return iso_key(iso), iso
+        _, lin, fc, fp, fe, si = a
+        il = e.fit_image(sma0=ELL_SMA0[si], maxsma=14.0, minsma=5.0, step=0.35 if lin != 2 else 2.0,
+                         linear={0: None, 1: False, 2: True}[lin], fix_center=bool(fc), fix_pa=bool(fp),
+                         fix_eps=bool(fe))
+        return il.to_table(), il
+
+
+def live_key(live):
+    from photutils.isophote import IsophoteList
+    with Quiet():
+        return live.to_table() if isinstance(live, IsophoteList) else iso_key(live)
 
 
 def ell_run(g0, calls, cache):
+    """returns (Coq observations of the fit_image calls, bad) with bad = (call, kind, text);
+    kind 'known' = explained by geometry.fix / linear_growth persisting after a call with those options
+    (the recorded known finding), anything else is new"""
     e, geo = ell_make(g0)
-    obs, bad = [], []
+    geo0 = geo_snapshot(geo)
+    lin0, fix0 = bool(g0['lin']), [bool(x) for x in g0['fix']]
+    obs, bad, earlier = [], [], []
     for k, a in enumerate(calls):
-        exc, t = 0, None
+        a = ell_norm(a)
+        before = (bool(geo.linear_growth), [bool(x) for x in geo.fix])
+        exc, t, live = 0, None, None
         try:
-            t = ell_call(e, a)
+            t, live = ell_call(e, a)
         except Exception as ex:  # noqa
             exc = exc_code(ex)
-        key = tuple(a)
-        if key not in cache:
-            cache[key] = ell_call(ell_make(g0)[0], a)
-        eqf = exc == 0 and same(t, cache[key])
+        if a not in cache:
+            cache[a] = ell_call(ell_make(g0)[0], a)[0]
+        eqf = exc == 0 and same(t, cache[a])
+        name = 'fit_isophote' if a[0] == 'iso' else 'fit_image'
         if exc:
-            bad.append((k, f'raises (code {exc})'))
+            bad.append((k, 'new:depends-on-earlier-calls', f'{name} raises (code {exc})'))
         elif not eqf:
-            bad.append((k, 'isophote table differs from a fresh Ellipse object\'s'))
-        elif bool(geo.linear_growth) != bool(g0['lin']) or [bool(x) for x in geo.fix] != [bool(x) for x in g0['fix']]:
-            bad.append((k, 'leaves the caller\'s EllipseGeometry overwritten (linear_growth / fix), which later '
-                           'calls then use'))
-        obs.append((k, a[0], bool(a[1]), bool(a[2]), bool(a[3]),
-                    (eqf, bool(geo.linear_growth), [bool(x) for x in geo.fix])))
+            explained = False
+            if before != (lin0, fix0):
+                key = ('persisted', before[0], tuple(before[1]), a)
+                if key not in cache:
+                    cache[key] = ell_call(ell_make(g0, before)[0], a)[0]
+                explained = same(t, cache[key])
+            if explained:
+                bad.append((k, 'known', f'{name} result differs from a fresh Ellipse object\'s (explained by the '
+                                        f'persisted linear_growth={before[0]}, fix={before[1]})'))
+            else:
+                bad.append((k, 'new:depends-on-earlier-calls',
+                            f'{name} result differs from a fresh Ellipse object\'s and is NOT explained by persisted '
+                            f'fix / linear_growth options'))
+        after = (bool(geo.linear_growth), [bool(x) for x in geo.fix])
+        if after != (lin0, fix0) and not any(b[0] == k for b in bad):
+            bad.append((k, 'known', f'{name} leaves the caller\'s EllipseGeometry overwritten (linear_growth / fix), '
+                                    'which later calls then use'))
+        snap = geo_snapshot(geo)
+        for f in GEO_FIELDS:
+            if snap[f] != geo0[f]:
+                bad.append((k, f'new:geometry-modified:{f}',
+                            f'{name} changed the caller\'s EllipseGeometry.{f} from {geo0[f]} to {snap[f]}'))
+        for (k0, key0, live0) in earlier:
+            if not same(live_key(live0), key0):
+                bad.append((k, 'new:earlier-result-modified',
+                            f'the result returned by call {k0} changed after call {k}'))
+        if live is not None:
+            earlier.append((k, t, live))
+        if a[0] == 'image':
+            obs.append((k, a[1], bool(a[2]), bool(a[3]), bool(a[4]),
+                        (eqf, bool(geo.linear_growth), [bool(x) for x in geo.fix])))
     return obs, bad
 
 
@@ -1062,32 +1265,40 @@ def section_ellipse(ctx, cases, meta):
     ctx.stat('ellipse', 'compared with the ' + ('code-as-found (legacy) machine' if legacy else 'repaired machine'))
     for g0 in g0s:
         cache = {}
-        hists = [[(0, True, False, False), (0, False, False, False)]]
+        hists = [[('image', 0, True, False, False, 0), ('image', 0, False, False, False, 0)],
+                 # different starting semimajor axes, default afterwards; single isophotes in between
+                 [('image', 0, False, False, False, 2), ('image', 0, False, False, False, 0), ('iso', 1),
+                  ('image', 0, False, False, False, 0), ('iso', 0), ('iso', 1)]]
         for _ in range(nh):
             h = []
             for _ in range(rng.randint(2, 4 if ctx.tier == 'quick' else 8)):
+                if rng.random() < 0.25:
+                    h.append(('iso', rng.randrange(2)))
+                    continue
                 fc, fp, fe = rng.choice([(False, False, False), (False, False, False), (True, False, False),
                                          (False, True, False), (False, False, True), (True, True, False),
                                          (True, True, True)])
-                h.append((rng.choice([0, 0, 1, 2]), fc, fp, fe))
+                h.append(('image', rng.choice([0, 0, 1, 2]), fc, fp, fe, rng.choice([0, 0, 1, 2])))
             hists.append(h)
         for h in hists:
             obs, bad = ell_run(g0, h, cache)
             desc = {'machine': 'Ellipse.fit_image', 'geometry': g0, 'calls': [list(c) for c in h]}
             ctx.count_case(desc, len(h) > 1)
             ctx.stat('ellipse', f"lin0={g0['lin']},fix0={any(g0['fix'])}")
-            for (k, what) in sorted(bad, key=lambda b: (0 if 'table differs' in b[1] else 1, b[0])):
-                report(ctx, 'Ellipse.fit_image:geometry-persists',
-                              f'Ellipse.fit_image call {k} {what}; calls (linear, fix_center, fix_pa, fix_eps) = {h[:k + 1]}',
-                              dict(desc, step=k, cmd='bin/check C09 --replay <this file>'))
-            cases.append(f"CEll {coq(legacy)} {coq(g0['lin'])} {coq([bool(x) for x in g0['fix']])} {coq(obs)}")
-            meta.append(('ell', desc, bool(bad) and not legacy))
+            for (k, kind, what) in sorted(bad, key=lambda b: (0 if 'result differs' in b[2] else 1, b[0])):
+                sig = ('Ellipse.fit_image:geometry-persists' if kind == 'known' else 'Ellipse.fit_image:' + kind[4:])
+                report(ctx, sig, f'Ellipse call {k}: {what}; calls (fit_image: linear, fix_center, fix_pa, fix_eps, '
+                                 f'sma0 index / fit_isophote: sma index) = {h[:k + 1]}',
+                       dict(desc, step=k, cmd='bin/check C09 --replay <this file>'))
+            if obs:
+                cases.append(f"CEll {coq(legacy)} {coq(g0['lin'])} {coq([bool(x) for x in g0['fix']])} {coq(obs)}")
+                meta.append(('ell', desc, bool(bad) and not legacy))
 
 
 def replay_ell(r):
     obs, bad = ell_run(r['geometry'], [tuple(c) for c in r['calls']], {})
-    for (k, what) in bad:
-        print(f'call {k}: {what}')
+    for (k, kind, what) in bad:
+        print(f'call {k} [{kind}]: {what}')
     return bad
 
 
@@ -1437,6 +1648,13 @@ class ApObj:
     def step(self, op):
         """returns None or a description of the violation"""
         bad = None
+        if op[0] == 'get':
+            with Quiet():
+                pub = public_reads(self.obj, exclude=ALAZY)
+                nm = pub[op[1] % len(pub)]
+                v = getattr(self.obj, nm)
+                fr = getattr(self.cls(**{n: self.dec(x) for n, x in self.cur.items()}), nm)
+            return None if same(v, fr) else (nm, 'differs from a fresh aperture with the current parameters')
         if op[0] == 'set':
             _, i, vd, valid = op
             exc = 0
@@ -1506,6 +1724,8 @@ def aper_scenario(rng):
                 q += [[j, 'read', a], [j, 'set', i, vd, True], [j, 'read', a]]
                 if rng.random() < 0.3:
                     q.append([j, 'read', rng.choice([3, 5, 7, 8, 10])])
+                if rng.random() < 0.2:
+                    q.append([j, 'get', rng.randrange(8)])
                 if rng.random() < 0.15:
                     i2 = rng.randrange(len(names))
                     q.append([j, 'set', i2, ap_value(rng, names[i2], cur, False), False])
